@@ -199,7 +199,7 @@ class World:
         for fn in sorted(os.listdir(self.dir)):
             if fn.endswith('.vc'):
                 self.vc = parse_vc(os.path.join(self.dir, fn), self.vc, self.features)
-        self.counters = {k: 0 for k in ['R1', 'R2', 'R3', 'R4', 'R5', 'R6', 'R7', 'A1', 'A2', 'A3', 'A4']}
+        self.counters = {k: 0 for k in ['R1', 'R2', 'R3', 'R4', 'R5', 'R6', 'R7', 'R10', 'A1', 'A2', 'A3', 'A4']}
         self.fnmap = []       # per emitted fn: dict
         self.uncontracted = []
         self.used_contracts = set()
@@ -1131,6 +1131,20 @@ class World:
             edits.append((re_, dot + 1, b'; let ghost vf_rem = vf_it.remaining(); let vf_r = vf_it.'))
             edits.append((ce, ce, ('; proof {\n' + GHOST_OPEN + text + GHOST_CLOSE + '\n} vf_r }').encode()))
             self.counters['R7'] += 1
+        # R10 match guards followed by a final wildcard arm: `P if G => A, _ => B`  ->  `P => { if G { A } else { B } }, _ => B`.
+        # Same evaluation order and values; needed because Verus does not resolve `&mut` borrows on the path where
+        # a guard fails and the wildcard arm leaves the function (a postcondition about final(..) then fails spuriously).
+        for mt in it.get('matches', []):
+            arms = mt['arms']
+            for k in range(len(arms) - 1):
+                a, b = arms[k], arms[k + 1]
+                if a['guard'] and k + 1 == len(arms) - 1 and b['wild'] and not b['guard']:
+                    g_txt = src[a['guard'][0]:a['guard'][1]].decode()
+                    b_txt = src[b['body'][0]:b['body'][1]].decode()
+                    edits.append((a['pat'][1], a['arrow'][0], b' '))
+                    edits.append((a['body'][0], a['body'][0], ('{ if ' + g_txt + ' { ').encode()))
+                    edits.append((a['body'][1], a['body'][1], (' } else { ' + b_txt + ' } }').encode()))
+                    self.counters['R10'] = self.counters.get('R10', 0) + 1
         # R3 format!
         for mc in it['macros']:
             if mc['name'] == 'format' and mc['first_lit']:
